@@ -94,6 +94,11 @@ func (f *BitNot) Call(s *slip.Scope, args slip.List, depth int) (result slip.Obj
 				FillPtr: -1,
 			}
 		}
+		if len(ra.Bytes) < len(t1.Bytes) {
+			// A bit-vector of the same length made in another way can have
+			// fewer bytes.
+			ra.Bytes = append(ra.Bytes, make([]byte, len(t1.Bytes)-len(ra.Bytes))...)
+		}
 		for i, b := range t1.Bytes {
 			ra.Bytes[i] = ^b
 		}
